@@ -2,6 +2,8 @@
 #include <nvector/nvector_cuda.h>
 #include <stdio.h>
 #include <sunmatrix/sunmatrix_cusparse.h>
+#include <sunlinsol/sunlinsol_cusolversp_batchqr.h>
+#include "verif_shim.h"
 verif_dim3 blockIdx = {0, 0, 0}, blockDim = {1, 1, 1}, threadIdx = {0, 0, 0}, gridDim = {1, 1, 1};
 long verif_kernel_threads = 0;
 static unsigned l_grid = 1, l_block = 1, l_cur = 0;
@@ -10,6 +12,25 @@ cudaError_t cudaFree(void *p) { free(p); return cudaSuccess; }
 cudaError_t cudaMemcpyAsync(void *d, const void *s, size_t n, cudaMemcpyKind, cudaStream_t) { memcpy(d, s, n); return cudaSuccess; }
 cudaError_t cudaMemcpy(void *d, const void *s, size_t n, cudaMemcpyKind) { memcpy(d, s, n); return cudaSuccess; }
 cudaError_t cudaDeviceSynchronize() { return cudaSuccess; }
+int verif_live_streams = 0, verif_live_handles = 0, verif_live_hostbufs = 0;
+cudaError_t cudaMallocHost(void **p, size_t n) { *p = malloc(n); verif_live_hostbufs++; return cudaSuccess; }   // exact size
+cudaError_t cudaFreeHost(void *p) { if (p) verif_live_hostbufs--; free(p); return cudaSuccess; }
+cudaError_t cudaStreamCreate(cudaStream_t *s) { static int next = 1; *s = next++; verif_live_streams++; return cudaSuccess; }
+cudaError_t cudaStreamDestroy(cudaStream_t) { verif_live_streams--; return cudaSuccess; }
+int cusparseCreate(cusparseHandle_t *h) { *h = malloc(1); verif_live_handles++; return 0; }
+int cusparseDestroy(cusparseHandle_t h) { free(h); verif_live_handles--; return 0; }
+int cusparseSetStream(cusparseHandle_t, cudaStream_t) { return 0; }
+int cusolverSpCreate(cusolverSpHandle_t *h) { *h = malloc(1); verif_live_handles++; return 0; }
+int cusolverSpDestroy(cusolverSpHandle_t h) { free(h); verif_live_handles--; return 0; }
+int cusolverSpSetStream(cusolverSpHandle_t, cudaStream_t) { return 0; }
+SUNLinearSolver SUNLinSol_cuSolverSp_batchQR(N_Vector y, SUNMatrix A, cusolverSpHandle_t h, SUNContext ctx) {
+    if (!y || !A || !h) return NULL;
+    SUNLinearSolver S = (SUNLinearSolver)calloc(1, sizeof(struct _generic_SUNLinearSolver));
+    S->kind = 2; S->n = y->length; S->pivots = NULL; S->sunctx = ctx;
+    verif_shim.live_solvers++;
+    return S;
+}
+void SUNLinSol_cuSolverSp_batchQR_GetDeviceSpace(SUNLinearSolver, size_t *a, size_t *b) { *a = 0; *b = 0; }
 cudaError_t cudaGetLastError() { return cudaSuccess; }
 const char *cudaGetErrorName(cudaError_t) { return "cudaSuccess"; }
 static void set_ids() {
@@ -29,8 +50,18 @@ N_Vector N_VNew_Cuda(sunindextype n, SUNContext ctx) {
     v->content = c; v->length = n; v->own_data = 1; v->sunctx = ctx;
     v->data = (realtype *)malloc(sizeof(realtype) * (size_t)n);
     for (sunindextype i = 0; i < n; i++) v->data[i] = 0.0;
+    verif_shim.live_vectors++;
     return v;
 }
+N_Vector N_VNewEmpty_Cuda(SUNContext ctx) {
+    N_Vector v = N_VNew_Cuda(0, ctx);
+    free(v->data); v->data = NULL; v->own_data = 0;
+    return v;
+}
+// host and device memory are the same memory in the emulation: the vector works on the caller's host array
+void N_VSetHostArrayPointer_Cuda(realtype *h, N_Vector v) { if (v->own_data) free(v->data); v->own_data = 0; v->data = h; }
+void N_VCopyToDevice_Cuda(N_Vector) {}
+void N_VCopyFromDevice_Cuda(N_Vector) {}
 int N_VSetKernelExecPolicy_Cuda(N_Vector x, SUNCudaExecPolicy *s, SUNCudaExecPolicy *r) {
     ((N_VectorContent_Cuda)x->content)->stream_exec_policy = s;
     ((N_VectorContent_Cuda)x->content)->reduce_exec_policy = r;
@@ -39,7 +70,7 @@ int N_VSetKernelExecPolicy_Cuda(N_Vector x, SUNCudaExecPolicy *s, SUNCudaExecPol
 realtype *N_VGetDeviceArrayPointer_Cuda(N_Vector v) { return v->data; }
 realtype *N_VGetHostArrayPointer_Cuda(N_Vector v) { return v->data; }
 void N_VSpace_Cuda(N_Vector v, sunindextype *lrw, sunindextype *liw) { *lrw = v->length; *liw = 2; }
-void N_VDestroy_Cuda(N_Vector v) { if (!v) return; free(v->content); if (v->own_data) free(v->data); free(v); }
+void N_VDestroy_Cuda(N_Vector v) { if (!v) return; free(v->content); if (v->own_data) free(v->data); free(v); verif_shim.live_vectors--; }
 
 SUNMatrix SUNMatrix_cuSparse_NewBlockCSR(int nblocks, int rows, int cols, int nnz, cusparseHandle_t, SUNContext ctx) {
     SUNMatrix A = (SUNMatrix)calloc(1, sizeof(struct _generic_SUNMatrix));
@@ -50,6 +81,7 @@ SUNMatrix SUNMatrix_cuSparse_NewBlockCSR(int nblocks, int rows, int cols, int nn
     for (long i = 0; i < (long)nnz * nblocks; i++) A->data[i] = 0.0;
     for (int i = 0; i < rows + 1; i++) A->dev_rowptrs[i] = -777;
     for (int i = 0; i < nnz; i++) A->dev_colvals[i] = -777;
+    verif_shim.live_matrices++;
     return A;
 }
 realtype *SUNMatrix_cuSparse_Data(SUNMatrix A) { return A->data; }
